@@ -260,6 +260,7 @@ DEFECT_EXHIBITS = [
     ("Lifecycle_x_heartbeat.cfg", "AllClosedAfterClose", "heartBeat scheduled after controlConn.close starts and reconnects after Close"),
     ("Lifecycle_x_latepool.cfg", "AllClosedAfterClose", "a pool created by a refresh after policyConnPool.Close is never closed"),
     ("Lifecycle_x_selfwait.cfg", "deadlock", "reconnect run inline on the refresh flusher waits for the flusher itself"),
+    ("Lifecycle_x_reconnwin.cfg", "AllClosedAfterClose", "a control connection installed by reconnect after controlConn.close is never closed"),
     ("Lifecycle_x_dropbc.cfg", "deadlock", "a flusher that drops the pending broadcaster on stop leaves its listeners waiting"),
 ]
 
